@@ -1,6 +1,6 @@
 SPECIFICATION Spec
-CONSTANT Mode = "legacy"
-CONSTANT IntoMode = "faithful"
+CONSTANT Mode = "fixed"
+CONSTANT IntoMode = "demorgan"
 CONSTANT Tier = "quick"
 INVARIANT LayoutRoundTrip
 INVARIANT IndexInjective
